@@ -327,7 +327,14 @@ func (o *compositeOracle) onStep(e *Engine, st *StepRec) *Violation {
 			if !ms.live() {
 				continue
 			}
-			exp.must(sr.S, "GOODBYE wamp.close.goodbye_and_out", func(x wamp.Message) bool {
+			// Over a serialised transport the router's last message races with
+			// its closing of the transport (Peer.Close discards what is still
+			// queued): the reply is demanded for in-process sessions only.
+			lastWord := exp.must
+			if !ms.local {
+				lastWord = exp.may
+			}
+			lastWord(sr.S, "GOODBYE wamp.close.goodbye_and_out", func(x wamp.Message) bool {
 				g, ok := x.(*wamp.Goodbye)
 				return ok && g.Reason == wamp.ErrGoodbyeAndOut
 			})
@@ -374,8 +381,18 @@ func (o *compositeOracle) onStep(e *Engine, st *StepRec) *Violation {
 						found = true
 					}
 				}
-				if !found {
+				anyGoodbye := false
+				for _, x := range st.Recv[idx] {
+					if _, ok := x.(*wamp.Goodbye); ok {
+						anyGoodbye = true
+					}
+				}
+				// (a serialised transport may be closed before the GOODBYE is written, see above)
+				if !found && (w.sess[idx].local || anyGoodbye) {
 					return w.fail(st, "session %d was killed through the meta API with reason %q but did not receive that GOODBYE (received %s)", idx, reason, recvString(st.Recv[idx]))
+				}
+				if !found {
+					w.st.Label("kill_goodbye_lost_on_remote_transport")
 				}
 			}
 			if w.stalled[idx] {
